@@ -56,7 +56,7 @@ def _times(rng, n):
 
 def _float_dtg(rng, kw_share=0.0):
     """textgrid with arbitrary float times, encoded by rank ticks + value table."""
-    n = rng.randint(2, 12)
+    n = rng.randint(2, 12) if rng.random() < 0.94 else rng.randint(16, 26)     # now and then room for 10+ entries in one tier
     vals = _times(rng, n)
     g = iogen.rand_dtg(rng, n, kw_share=kw_share)
     return g, vals
